@@ -190,7 +190,8 @@ def add_plus_one(
         result_labels = result_labels[::-1]
 
     if all(circuit.get_gate(label).gate_type == gate.INPUT for label in input_labels):
-        circuit.order_inputs(input_labels)
+        # an input may feed several bit positions: order each input once
+        circuit.order_inputs(list(dict.fromkeys(input_labels)))
     if add_outputs:
         circuit.order_outputs(result_labels)
     return result_labels
